@@ -335,6 +335,21 @@ def part_nameraw(chk, drv, runner, c18):
                       "api_built": c18.shape_size_ok(shape, t), "every": 1})
     c18.process(chk, "nameraw", cases, drv, runner)
     pc = chk.cov["parts"]["nameraw"]
+    # which SPELLING of a key the tree holds after every call (a replaced value keeps the stored string, a removed and
+    # re-inserted key gets the spelling newUnicodeString chooses): dumps with the stored bytes, implementation = model
+    spell = ["nn namespell %d %s %s" % (c["t"], c["init_drv"], ";".join(c["ops"]) or "-") for c in cases]
+    si = [c18.ERR_RE.sub("err", o) for o in common.run_lines(drv, spell, shards=4)]
+    sm = common.run_lines(runner, spell, shards=4)
+    sdiff = [(l, a, b) for l, a, b in zip(spell, si, sm) if a != b]
+    if sdiff and not [v for v in chk.violations if not v[1]]:
+        l, a, b = sdiff[0]
+        ia, ib = a.split(";"), b.split(";")
+        st = next((i for i, (x, y) in enumerate(zip(ia, ib)) if x != y), min(len(ia), len(ib)))
+        chk.violation({"kind": "correspondence-broken", "correspondence": "corr:C18:names-spelling", "differing_cases": len(sdiff),
+                       "first_case": {"driver_line": l[:3000]}, "first_differing_step": st,
+                       "implementation": ia[st][:1200] if st < len(ia) else None, "model": ib[st][:1200] if st < len(ib) else None}, no_input=True)
+    pc["spelling_dumps_compared"] = len(spell)
+    pc["spelling_model_differs"] = len(sdiff)
     pc["stored_string_pool"] = len(raws)
     pc["stored_strings_without_iso_text"] = len(ill)
     pc["texts_with_several_spellings"] = sum(1 for t in texts if len(by_text[t]) > 1)
